@@ -808,7 +808,12 @@ func checkForwarding(client http.Header, got http.Header, f facts, xff bool, hit
 		ip, _, _ := strings.Cut(f.peer, "%")
 		expect("X-Real-Ip", []string{ip})
 	}
-	if !eqVals(got["X-Forwarded-Server"], []string{f.hostname}) {
+	if up := upstream("X-Forwarded-Server"); up != nil && f.hostname != "" {
+		// the statement lists -Server among the headers that keep an upstream-supplied value; rewrite.go sets it unconditionally
+		if !eqVals(got["X-Forwarded-Server"], up) {
+			hit("[xfs-overwritten] X-Forwarded-Server supplied upstream %q reached the backend as %q (the proxy's own host name)", up, got["X-Forwarded-Server"])
+		}
+	} else if !eqVals(got["X-Forwarded-Server"], []string{f.hostname}) {
 		hit("X-Forwarded-Server is %q at the backend, want the proxy's host name %q", got["X-Forwarded-Server"], f.hostname)
 	}
 	if xff && f.peerOK {
